@@ -43,8 +43,10 @@ type Frame struct {
 }
 
 type loopAct struct {
-	variant *smt.Term
-	pcAt    *pcNode
+	variant    *smt.Term
+	pcAt       *pcNode
+	frameHeaps []string
+	uses       []*smt.Term
 }
 
 func (f *Frame) clone() *Frame {
@@ -97,6 +99,16 @@ type State struct {
 	dead     bool
 	pure     bool
 	nonnil   map[*smt.Term]bool
+	streams  []stream
+}
+
+// stream ties a read-only byte slice to a ghost sequence: slice[j] == S[base+j].
+type stream struct {
+	elemKey string
+	arr     *smt.Term
+	off     *smt.Term
+	seq     SeqV
+	base    *smt.Term
 }
 
 type roArr struct {
@@ -124,6 +136,7 @@ func (s *State) clone() *State {
 		t.globals[k] = v
 	}
 	t.ro = s.ro
+	t.streams = s.streams
 	t.nonnil = make(map[*smt.Term]bool, len(s.nonnil))
 	for k, v := range s.nonnil {
 		t.nonnil[k] = v
@@ -233,7 +246,30 @@ func (s *State) loadField(base types.Type, path []int, ref *smt.Term) Value {
 	}
 	v := fromLeaves(t, ts)
 	s.assumeFacts(typeFacts(t, v))
+	s.assumeFacts(allocFacts(v, s.alloc))
+	recordRangeDeep(t, v)
 	return v
+}
+
+// allocFacts: every id reachable from the heap has been allocated.
+func allocFacts(v Value, alloc *smt.Term) []*smt.Term {
+	switch x := v.(type) {
+	case SliceV:
+		return []*smt.Term{smt.Lt(x.Arr, alloc)}
+	case RefV:
+		return []*smt.Term{smt.Lt(x.T, alloc)}
+	case PtrV:
+		if x.Ref != nil {
+			return []*smt.Term{smt.Lt(x.Ref, alloc)}
+		}
+	case StructV:
+		var out []*smt.Term
+		for _, f := range x.Fields {
+			out = append(out, allocFacts(f, alloc)...)
+		}
+		return out
+	}
+	return nil
 }
 
 func (s *State) storeField(base types.Type, path []int, ref *smt.Term, v Value) {
@@ -262,6 +298,15 @@ func (s *State) loadElem(elem types.Type, path []int, arr, idx *smt.Term) Value 
 	ls := leavesOf(t)
 	ts := make([]*smt.Term, len(ls))
 	ek := typeKey(elem)
+	for _, sm := range s.streams {
+		if sm.elemKey == ek && sm.arr == arr && len(ls) == 1 {
+			r := smt.Select(sm.seq.Arr, smt.Add(sm.base, smt.Sub(idx, sm.off)))
+			v := fromLeaves(t, []*smt.Term{r})
+			s.assumeFacts(typeFacts(t, v))
+			recordRangeDeep(t, v)
+			return v
+		}
+	}
 	for i, l := range ls {
 		name := elemHeapName(elem, suf+l.Suffix)
 		var h *smt.Term
@@ -274,6 +319,7 @@ func (s *State) loadElem(elem types.Type, path []int, arr, idx *smt.Term) Value 
 	}
 	v := fromLeaves(t, ts)
 	s.assumeFacts(typeFacts(t, v))
+	s.assumeFacts(allocFacts(v, s.alloc))
 	return v
 }
 
